@@ -277,6 +277,20 @@ class FnEval:
                     for ft in false_t:
                         out.append((key, reads, iv[0], iv[1], bi, ft))
             if const_int(rv[2]) is None and const_int(rv[3]) is None and rv[1] in ("Lt", "Le", "Gt", "Ge"):
+                # `i < num` with num = min(len, 16): the bound's interval bounds the other side on the matching edge
+                false_t0 = [z[1] for z in t[2] if int(z[0]) == 0]
+                for x, y, op in ((rv[2], rv[3], rv[1]),
+                                 (rv[3], rv[2], {"Lt": "Gt", "Le": "Ge", "Gt": "Lt", "Ge": "Le"}[rv[1]])):
+                    yv = self.op_ival(y)
+                    if yv is None:
+                        continue
+                    reads = []
+                    key = self.expr_key(x, reads)
+                    if op in ("Lt", "Le") and yv[1] != INF and yv[1] < (1 << 62):
+                        out.append((key, reads, 0, yv[1] - (1 if op == "Lt" else 0), bi, t[3]))       # true edge: x < y <= hi(y)
+                    if op in ("Gt", "Ge") and yv[1] != INF and yv[1] < (1 << 62):
+                        for ft in false_t0:
+                            out.append((key, reads, 0, yv[1] - (1 if op == "Ge" else 0), bi, ft))     # false edge of x >= y
                 # relational test between two values: `i < n` says n - i >= 1 on the true edge (and i - n >= 0 on the
                 # false edge); recorded as a fact about the difference expression, which is what the code computes next
                 reads = []
@@ -359,6 +373,16 @@ class FnEval:
                         r = self._def_ival(l, dd, depth + 1)
                         if r is not None:
                             return r
+                else:
+                    # no definition earlier in this block: when the block's only predecessor ends in the call that
+                    # defines the local (`let mut ptr = self.buf_offset(); self.buf[ptr] = ..`), that call reaches the read
+                    preds = [p for p in self.b.pred[d[0]] if p in self.b.reachset]
+                    if len(preds) == 1:
+                        cd = [x for x in ds if x[2] == "call" and x[0] == preds[0]]
+                        if cd and not [x for x in ds if x[0] == d[0] and isinstance(x[1], int) and x[1] < d[1]]:
+                            r = self._def_ival(l, cd[0], depth + 1)
+                            if r is not None:
+                                return r
         return self.op_ival(o, None, depth)
 
     def _def_ival0(self, local, d, depth):
@@ -368,7 +392,7 @@ class FnEval:
             args = t[2]
             if name.endswith("::len") and ("slice" in name or "Vec" in name or "str" in name):
                 return self.slice_len(args[0], self.at)
-            if name.startswith("core::cmp::min") and len(args) == 2:
+            if (name.startswith("core::cmp::min") or (name.endswith("::min") and "cmp" in name)) and len(args) == 2:
                 a, c = self.op_ival(args[0]), self.op_ival(args[1])
                 if a is None and c is None:
                     return None
@@ -377,6 +401,10 @@ class FnEval:
                 return (min(a[0], c[0]), min(a[1], c[1]))
             if "wrapping_sub" in name or "wrapping_add" in name or "wrapping_neg" in name:
                 return None
+            if t[1].get("l") and self.ctx is not None and depth < 6:
+                # an integer-returning crate-local helper (`fn buf_offset(&self) -> usize { (self.ctr % 64) as usize }`): the
+                # interval of its return value, whatever its arguments
+                return self.ctx.ret_ival(t[1].get("id"))
             return None
         rv = d[3][2]
         k = rv[0]
@@ -1979,6 +2007,39 @@ class SuccCtx:
         self.f = facts
         self.memo = {}
         self.busy = set()
+
+    def ret_ival(self, fid):
+        """Interval of the value returned by an unsigned-integer-returning local function (join over the definitions of
+        its return place, no knowledge of the arguments), or None."""
+        key = ("ret", fid)
+        if key in self.memo:
+            return self.memo[key]
+        fn = self.f.fns.get(fid)
+        self.memo[key] = None
+        if fn is None or key in self.busy or len(fn["blocks"]) > 40:
+            return None
+        td = self.f.ty(fn["locals"][0][0])
+        if td.get("k") != "uint":
+            return None
+        self.busy.add(key)
+        try:
+            from .mir import Body
+            ev = FnEval(self.f, Body(fn), self)
+            r = None
+            ok = True
+            for d in ev.b.defs().get(0, []):
+                iv = ev._def_ival(0, d, 0) if d[2] in ("A", "call") and len(d[3][1] if d[2] == "A" else [0]) == 1 else None
+                if iv is None:
+                    ok = False
+                    break
+                r = iv if r is None else (min(r[0], iv[0]), max(r[1], iv[1]))
+            res = r if ok and r is not None and r[1] != INF else None
+        except Exception:
+            res = None
+        finally:
+            self.busy.discard(key)
+        self.memo[key] = res
+        return res
 
     def succ_len(self, fid):
         if fid in self.memo:
